@@ -328,7 +328,7 @@ Definition rsafe {B} (R : list byte -> list byte -> N -> B -> res B)
 (* name-addr values: finished, or satisfying the invariant; "quiet" = may be started anywhere later *)
 Definition act_fb (pre : list byte) (i : N) (s : pfrom) : Prop := fb_parsed s = true \/ fb_inv 0 pre i s.
 Definition qt_fb (i : N) (s : pfrom) : Prop :=
-  fb_parsed s = true \/ (fb_bnd 0 i s /\ fb_state s <> FbNameOrURI /\ fb_params s = pf0).
+  fb_parsed s = true \/ (fb_bnd 0 i s /\ fb_state s = FbInit /\ fb_params s = pf0).
 Lemma qt_act_fb i o s pre : qt_fb i s -> i <= o -> act_fb pre o s.
 Proof.
   intros [H|(Hb & Hs & Hp)] Ho; [left; exact H|right].
@@ -1082,7 +1082,7 @@ Proof.
   pose proof (fline_safe buf offs (m_fl m) Ho Hfl) as H.
   destruct (parse_fline buf offs (m_fl m)) as [o1 e fl1| |]; try contradiction. destruct H as (H1 & H2 & H3 & H4).
   destruct e; try (apply fail_safe; [exact H1|discriminate|intros E; discriminate]).
-  - specialize (H4 eq_refl).
+  - destruct (H4 eq_refl) as [H4' _]. clear H4. rename H4' into H4.
     apply mheaders_safe; [exact H1|exact H4|destruct m; cbn in *; lia|destruct m; reflexivity|].
     destruct m; cbn in *. apply (HSstart_inv offs); assumption.
   - apply fail_safe; [exact H1|discriminate|]. intros _. destruct (H3 eq_refl) as [Hoo1 Hfl1]. split; [exact Hoo1|].
@@ -1131,7 +1131,7 @@ Qed.
 Lemma PVq_init n o : PVq o (phvals_init (repeat pfrom0 n)).
 Proof.
   unfold PVq, phvals_init. cbn.
-  assert (Hq : qt_fb o pfrom0) by (right; split; [unfold fb_bnd, pf_end; cbn; repeat split; try lia; intros; lia|split; [discriminate|reflexivity]]).
+  assert (Hq : qt_fb o pfrom0) by (right; split; [unfold fb_bnd, pf_end; cbn; repeat split; try lia; intros; lia|split; [reflexivity|reflexivity]]).
   split; [exact Hq|]. split; [exact Hq|]. split; [right; apply callid0_inv|]. split; [right; apply cseq0_inv|].
   split; [split; [unfold pf_end; cbn; lia|right; apply uintb0_inv]|]. split; [split; [unfold pf_end; cbn; lia|right; apply uintb0_inv]|].
   split; [intros pre'; apply ct_inv_init|intros pre'; apply pa_inv_init].
